@@ -622,6 +622,97 @@ theorem SegmentSpec_of_segFinal (img : Bytes) (isLazy : Bool) (j : Nat) (secs : 
     exact segData_take img j isLazy hk hin
 
 
+/-! ### per-record rungs at specification level -/
+
+/-- `section_impl::load` for section `i` of a well-formed image, on any good stream over it -/
+theorem secLoad_wf (img : Bytes) (hwf : WellFormedImage img) (i : Nat) (hi : i < eh img "e_shnum")
+    (ls : LoadSt) (isLazy : Bool) (hd : ls.st.data = img) (he : ls.st.eof = false) (hf : ls.st.fail = false) :
+    SecSt (clsOf img) (encOf img) img (shBase img i) isLazy i (!isLazy) []
+      (secLoad (clsOf img) (encOf img) [] ls (Int.ofNat (shBase img i)) isLazy i).2 ∧
+    (secLoad (clsOf img) (encOf img) [] ls (Int.ofNat (shBase img i)) isLazy i).2.size.toNat = sh img i "sh_size" ∧
+    (secLoad (clsOf img) (encOf img) [] ls (Int.ofNat (shBase img i)) isLazy i).2.offset.toNat = sh img i "sh_offset" ∧
+    (secLoad (clsOf img) (encOf img) [] ls (Int.ofNat (shBase img i)) isLazy i).2.stype.toNat = sh img i "sh_type" ∧
+    (isLazy = false → occupiesFile (sh img i "sh_type") = true → sh img i "sh_size" ≠ 0 →
+      (secLoad (clsOf img) (encOf img) [] ls (Int.ofNat (shBase img i)) isLazy i).2.data =
+        some (slice img (sh img i "sh_offset") (sh img i "sh_size") ++ [0])) ∧
+    (secLoad (clsOf img) (encOf img) [] ls (Int.ofNat (shBase img i)) isLazy i).1.st.data = img ∧
+    (secLoad (clsOf img) (encOf img) [] ls (Int.ofNat (shBase img i)) isLazy i).1.st.eof = false ∧
+    (secLoad (clsOf img) (encOf img) [] ls (Int.ofNat (shBase img i)) isLazy i).1.st.fail = false := by
+  obtain ⟨_, _, _, _, h63, _, _, hS, _⟩ := hwf
+  have hsz := sizes_eq (clsOf img)
+  rw [← hsz.2.1] at hS
+  obtain ⟨hk, hocc, _, _⟩ := hS i hi
+  obtain ⟨_, b2, _, _, b5, b6, _⟩ := secHdr_bridge img (clsOf img) (encOf img) (shBase img i) isLazy i hk
+  have hin : SecInside img.length (secHdr (clsOf img) (encOf img) img (shBase img i) isLazy i) := by
+    intro hty
+    rw [isNullOrNobits_eq, b2] at hty
+    rw [b5, b6]
+    have : occupiesFile (sh img i "sh_type") = true := by unfold sh; simpa using hty
+    exact hocc this
+  have hh := secLoad_inside' (clsOf img) (encOf img) ls (shBase img i) isLazy i he hf (by rw [hd]; exact h63)
+    (by rw [hd]; exact hk) (by rw [hd]; exact hin)
+  rw [hd] at hh
+  obtain ⟨hst, e1, e2, e3, _⟩ := hh
+  refine ⟨hst, ?_, ?_, ?_, ?_, e3, e1, e2⟩
+  · obtain ⟨fd, L, hb, _⟩ := hst; rw [hb]; exact b6
+  · obtain ⟨fd, L, hb, _⟩ := hst; rw [hb]; exact b5
+  · obtain ⟨fd, L, hb, _⟩ := hst; rw [hb]; exact b2
+  · intro hl ho hz
+    obtain ⟨fd, L, hb, _⟩ := hst
+    rw [hb, hl]
+    have hty : isNullOrNobitsTy (secHdr (clsOf img) (encOf img) img (shBase img i) false i).stype = false := by
+      rw [isNullOrNobits_eq]
+      have b2' := (secHdr_bridge img (clsOf img) (encOf img) (shBase img i) false i hk).2.1
+      rw [b2']; unfold sh at ho; simp [ho]
+    have b5' := (secHdr_bridge img (clsOf img) (encOf img) (shBase img i) false i hk).2.2.2.2.1
+    have b6' := (secHdr_bridge img (clsOf img) (encOf img) (shBase img i) false i hk).2.2.2.2.2.1
+    have hz' : ¬ (secHdr (clsOf img) (encOf img) img (shBase img i) false i).size = 0#64 := by
+      intro h
+      apply hz
+      unfold sh
+      rw [← b6', h]; rfl
+    simp [secData, hty, b5', b6', sh]
+    rw [if_neg hz']
+
+/-- `segment_impl::load` for segment `j` of a well-formed image, on any good stream over it -/
+theorem segLoad_wf (img : Bytes) (hwf : WellFormedImage img) (j : Nat) (hj : j < eh img "e_phnum")
+    (ls : LoadSt) (isLazy : Bool) (hd : ls.st.data = img) (he : ls.st.eof = false) (hf : ls.st.fail = false) :
+    (segLoad (clsOf img) (encOf img) [] ls (Int.ofNat (phBase img j)) isLazy).2 =
+      ({ segHdr (clsOf img) (encOf img) img (phBase img j) isLazy with
+           data := if isLazy then none else segData img (segHdr (clsOf img) (encOf img) img (phBase img j) isLazy),
+           isLoaded := !isLazy && !segSkip (segHdr (clsOf img) (encOf img) img (phBase img j) isLazy) }, true) ∧
+    (isLazy = false →
+      (((segLoad (clsOf img) (encOf img) [] ls (Int.ofNat (phBase img j)) isLazy).2.1.data.getD []).take
+        (ph img j "p_filesz") = segFileBytes img j)) ∧
+    (segLoad (clsOf img) (encOf img) [] ls (Int.ofNat (phBase img j)) isLazy).1.st.data = img ∧
+    (segLoad (clsOf img) (encOf img) [] ls (Int.ofNat (phBase img j)) isLazy).1.st.eof = false ∧
+    (segLoad (clsOf img) (encOf img) [] ls (Int.ofNat (phBase img j)) isLazy).1.st.fail = false := by
+  obtain ⟨_, _, _, _, h63, _, _, _, hP, _⟩ := hwf
+  have hsz := sizes_eq (clsOf img)
+  rw [← hsz.2.2] at hP
+  obtain ⟨hk, hhas, _, _⟩ := hP j hj
+  obtain ⟨b1, _, b3, _, _, b6, _, _⟩ := segHdr_bridge img (clsOf img) (encOf img) (phBase img j) isLazy hk
+  have hin : SegInside img.length (segHdr (clsOf img) (encOf img) img (phBase img j) isLazy) := by
+    intro hsk
+    rw [segSkip_eq, b1, b6] at hsk
+    rw [b3, b6]
+    apply hhas
+    unfold segHasData ph
+    simp only [bne, ← Bool.not_or, hsk, Bool.not_false]
+  have hh := segLoad_inside (clsOf img) (encOf img) ls (phBase img j) isLazy he hf (by rw [hd]; exact h63)
+    (by rw [hd]; exact hk) (by rw [hd]; exact hin)
+  rw [hd] at hh
+  obtain ⟨e0, e1, e2, e3, _⟩ := hh
+  refine ⟨e0, ?_, e3, e1, e2⟩
+  intro hl
+  rw [e0]
+  subst hl
+  simp only [Bool.false_eq_true, if_false]
+  have := segData_take img j false hk hin
+  rw [b6] at this
+  exact this
+
+
 /-- what `load` must produce for image `img` -/
 def LoadSpec (img : Bytes) (r : LoadRes) : Prop :=
   r.ok = true ∧ r.obj.cls = clsOf img ∧ r.obj.enc = encOf img ∧
